@@ -241,7 +241,6 @@ _FALLBACK_METHOD_FROM_TD = [
     "__xor__",
     "_add_batch_dim",
     "_apply_nest",
-    "_clone",
     "_clone_recurse",
     "_data",
     "_erase_names",  # TODO: must be specialized
